@@ -41,7 +41,7 @@ ASSUMPTIONS = [
     "rows within a few ulp of a range boundary and numerical-fallback force rows whose stencil crosses a "
     "boundary are not compared (counted)",
 ]
-REQUIRED = {"special:root_on_grid": 8, "special:decay_tail": 8, "special:growth": 4, "accept": 60, "reject": 40, "reject:nr%4=2:api_class": 5, "reject:nr%4=2:writePotentials": 5,
+REQUIRED = {"special:root_on_grid": 8, "special:decay_tail": 8, "special:growth": 4, "reject:four_rows": 2, "no_potentials:reject": 3, "accept": 60, "reject": 40, "reject:nr%4=2:api_class": 5, "reject:nr%4=2:writePotentials": 5,
             "reject:nr%4=2:potable": 10, "route:potable:DL_POLY": 10, "route:potable:DLPOLY": 10,
             "route:api_class": 15, "route:writePotentials": 15}
 FMT = ("e", 7)
@@ -55,10 +55,16 @@ def _case(draw, nr_max, accept, route=None, rem=None):
     if accept:
         nr = 4 * draw(st.one_of(st.integers(2, 6), st.integers(2, nr_max // 4)))
     else:
-        rem = rem or draw(st.sampled_from([1, 2, 2, 3]))
+        four = rem == "four"
+        rem = draw(st.sampled_from([1, 2, 2, 3])) if four or not rem else rem
         nr = max(3, 4 * draw(st.one_of(st.integers(0, 6), st.integers(0, nr_max // 4))) + rem)
         if nr % 4 == 0:
             nr += rem
+        if four:
+            nr = 4          # divisible by four, but delpot = cutoff/(ngrid-4) does not exist
+        elif draw(st.integers(0, 3)) == 0:
+            # the row count belongs to the file: it is refused also when there is no potential to tabulate
+            m["pair"] = []
     m.update({"cutoff": cutoff, "nr": nr, "route": route,
               "container": draw(st.sampled_from(["list", "list", "tuple", "iterator", "generator"]))})
     return m
@@ -82,6 +88,7 @@ def strata(tier):
     for route in ("api_class", "writePotentials", "potable:DL_POLY", "potable:DLPOLY"):
         out.append(("reject:even:" + route, _case(mx, False, route, 2), 1))
         out.append(("reject:odd:" + route, _case(mx, False, route), 1))
+        out.append(("reject:four:" + route, _case(mx, False, route, "four"), 0.3))
     return out
 
 
@@ -158,8 +165,12 @@ def verify_text(case, out, route_kind, ctx):
 
 def check_case(case):
     nr, cutoff, route = case["nr"], case["cutoff"], case["route"]
-    accept = nr % 4 == 0
+    accept = nr % 4 == 0 and nr >= 8        # with four rows delpot = cutoff/(ngrid-4) does not exist
     cls = ["accept" if accept else "reject", "route:" + route]
+    if not case["pair"]:
+        cls.append("no_potentials:" + ("accept" if accept else "reject"))
+    if nr == 4:
+        cls.append("reject:four_rows")
     if case.get("special"):
         cls.append("special:" + case["special"])
     if not accept:
